@@ -3,6 +3,7 @@ package sim
 import (
 	"fmt"
 	"os"
+	"strings"
 
 	"pgregory.net/rapid"
 )
@@ -32,7 +33,7 @@ const FindingGatewayDisableCanarySvc = "c05-gateway-disable-canary-service-delet
 // GenExcluded counts generator-level exclusions (per process; drained by the check).
 var GenExcluded = map[string]int{}
 
-var AllKinds = []string{"cloneset/partition", "deployment/canary"}
+var AllKinds = []string{"cloneset/partition", "deployment/canary", "deployment/bluegreen"}
 
 func intp(i int) *int { return &i }
 
@@ -43,6 +44,9 @@ func GenScenario(t *rapid.T, b Bias) Scenario {
 	kinds := b.Kinds
 	if len(kinds) == 0 {
 		kinds = AllKinds
+	}
+	if v := os.Getenv("VERIF_E1_KINDS"); v != "" { // development aid
+		kinds = strings.Split(v, ",")
 	}
 	kind := rapid.SampledFrom(kinds).Draw(t, "kind")
 	s := Scenario{Namespace: "ns1", Name: "demo"}
@@ -65,6 +69,9 @@ func GenScenario(t *rapid.T, b Bias) Scenario {
 	}
 	s.Provider = rapid.SampledFrom(provs).Draw(t, "provider")
 	s.UseRolloutID = rapid.Bool().Draw(t, "rollout-id")
+	if s.Style == "bluegreen" {
+		s.WithHPA = rapid.Bool().Draw(t, "with-hpa")
+	}
 	if s.Provider != "" {
 		s.DisableCanarySvc = rapid.IntRange(0, 5).Draw(t, "disable-canary-svc") == 0
 		if s.DisableCanarySvc && s.Provider == "gateway" && KnownOpen[FindingGatewayDisableCanarySvc] {
@@ -142,8 +149,20 @@ func GenScenario(t *rapid.T, b Bias) Scenario {
 		}
 		s.Steps = append(s.Steps, st)
 	}
+	if s.Style == "bluegreen" && s.Provider != "" && KnownOpen[FindingBlueGreenRouteToMissingSvc] {
+		// known finding: the success finalising of a blue-green release routes 100% to the canary
+		// Service without making sure it exists; a last step without traffic has removed it
+		if last := &s.Steps[len(s.Steps)-1]; last.Traffic == nil && last.Match == "" {
+			last.Traffic = intp(100)
+			GenExcluded[FindingBlueGreenRouteToMissingSvc]++
+		}
+	}
 	return s
 }
+
+// FindingBlueGreenRouteToMissingSvc: blue-green, traffic routing, the last step carries neither
+// traffic nor matches.
+const FindingBlueGreenRouteToMissingSvc = "c04-bluegreen-finalising-routes-all-traffic-to-missing-canary-service"
 
 var defaultUserWeights = map[string]int{
 	UserApprove: 10, UserRelease: 2, UserRollback: 2, UserPause: 1, UserResume: 2, UserScale: 1,
